@@ -582,6 +582,23 @@ public:
 		, mSize(arraySize)
 	{ }
 
+	~CMsgPackReadArrayScope()
+	{
+		try
+		{
+			// Skip elements that was not read (e.g. array loaded to a shorter tuple), the parent scope continues after the array
+			for (; mIndex < mSize; ++mIndex)
+			{
+				mMsgPackReader->SkipValue();
+			}
+		}
+		catch (...)
+		{
+			// A destructor must not throw (e.g. truncated input), the error will be reported by `Finalize()` of the root scope
+			GetContext().DeferError(std::current_exception());
+		}
+	}
+
 	/// <summary>
 	/// Gets the current path in MsgPack.
 	/// </summary>
